@@ -1528,4 +1528,276 @@ theorem flat_groupOneQubitGates (c : Circuit) (order : List Reg) (c' : Circuit) 
     cases h
     exact group_fold order ⟨c, [], false⟩ hwf har (by simpa using hb)
 
+/-! ## 7. the denotation of a circuit factors through `flat` -/
+
+section Trace
+variable {ι σ : Type} (regs : ι → List Reg) (app : ι → σ → σ)
+
+/-- run a sequence of operations, first element first -/
+def runSeq (l : List ι) (s : σ) : σ := l.foldl (fun s a => app a s) s
+
+/-- the operations of `l` acting on register `r`, in order -/
+def projReg [DecidableEq Reg] (r : Reg) (l : List ι) : List ι := l.filter fun a => decide (r ∈ regs a)
+
+theorem runSeq_append (l1 l2 : List ι) (s : σ) : runSeq app (l1 ++ l2) s = runSeq app l2 (runSeq app l1 s) := by
+  simp [runSeq, List.foldl_append]
+
+theorem runSeq_cons (a : ι) (l : List ι) (s : σ) : runSeq app (a :: l) s = runSeq app l (app a s) := rfl
+
+theorem exists_first_occurrence [DecidableEq ι] {a : ι} {l : List ι} (h : a ∈ l) : ∃ pre post, l = pre ++ a :: post ∧ a ∉ pre := by
+  induction l with
+  | nil => cases h
+  | cons b l ih =>
+    by_cases hb : b = a
+    · exact ⟨[], l, by rw [hb]; rfl, by simp⟩
+    · rcases List.mem_cons.mp h with h | h
+      · exact absurd h.symm hb
+      · obtain ⟨pre, post, hl, hn⟩ := ih h
+        exact ⟨b :: pre, post, by rw [hl]; rfl, by simp [hn, Ne.symm hb]⟩
+
+/-- an operation commutes past a block of operations on other registers -/
+theorem commute_past (hcomm : ∀ a b, (∀ r, r ∈ regs a → r ∉ regs b) → ∀ s, app a (app b s) = app b (app a s))
+    (a : ι) (pre : List ι) (hind : ∀ b, b ∈ pre → ∀ r, r ∈ regs a → r ∉ regs b) (s : σ) :
+    app a (runSeq app pre s) = runSeq app pre (app a s) := by
+  induction pre generalizing s with
+  | nil => rfl
+  | cons b pre ih =>
+    rw [runSeq_cons, runSeq_cons, ih (fun c hc => hind c (List.mem_cons_of_mem _ hc)),
+      hcomm a b (hind b List.mem_cons_self)]
+
+/-- **two sequences with the same per-register subsequences compute the same state**, provided operations on disjoint
+    register sets commute (every operation acts on at least one register) -/
+theorem runSeq_eq_of_proj_eq [DecidableEq ι]
+    (hcomm : ∀ a b, (∀ r, r ∈ regs a → r ∉ regs b) → ∀ s, app a (app b s) = app b (app a s))
+    (l1 l2 : List ι) (hne1 : ∀ a, a ∈ l1 → regs a ≠ []) (hne2 : ∀ a, a ∈ l2 → regs a ≠ [])
+    (h : ∀ r, projReg regs r l1 = projReg regs r l2) (s : σ) : runSeq app l1 s = runSeq app l2 s := by
+  induction l1 generalizing l2 s with
+  | nil =>
+    cases l2 with
+    | nil => rfl
+    | cons b l2 =>
+      exfalso
+      obtain ⟨r, hr⟩ := List.exists_mem_of_ne_nil _ (hne2 b List.mem_cons_self)
+      have := h r
+      simp [projReg, hr] at this
+  | cons a l1 ih =>
+    obtain ⟨r0, hr0⟩ := List.exists_mem_of_ne_nil _ (hne1 a List.mem_cons_self)
+    have ha2 : a ∈ l2 := by
+      have := h r0
+      have hmem : a ∈ projReg regs r0 (a :: l1) := by simp [projReg, hr0]
+      rw [this] at hmem
+      exact (List.mem_filter.mp hmem).1
+    obtain ⟨pre, post, hl2, hnpre⟩ := exists_first_occurrence ha2
+    -- every operation before the first occurrence of `a` in `l2` is independent of `a`
+    have hind : ∀ b, b ∈ pre → ∀ r, r ∈ regs a → r ∉ regs b := by
+      intro b hb r hra hrb
+      have := h r
+      rw [hl2] at this
+      simp only [projReg, List.filter_append, List.filter_cons, hra, decide_true, if_true] at this
+      have hbm : b ∈ pre.filter (fun x => decide (r ∈ regs x)) := List.mem_filter.mpr ⟨hb, by simpa using hrb⟩
+      cases hf : pre.filter (fun x => decide (r ∈ regs x)) with
+      | nil => rw [hf] at hbm; cases hbm
+      | cons x xs =>
+        rw [hf] at this
+        simp only [List.cons_append, List.cons.injEq] at this
+        have hx : x ∈ pre := (List.mem_filter.mp (by rw [hf]; exact List.mem_cons_self)).1
+        exact hnpre (this.1 ▸ hx)
+    have hproj : ∀ r, projReg regs r l1 = projReg regs r (pre ++ post) := by
+      intro r
+      have := h r
+      rw [hl2] at this
+      simp only [projReg, List.filter_append, List.filter_cons] at this ⊢
+      by_cases hra : r ∈ regs a
+      · have hpre : pre.filter (fun x => decide (r ∈ regs x)) = [] := by
+          rw [List.filter_eq_nil_iff]
+          intro b hb
+          simpa using hind b hb r hra
+        simp only [hra, decide_true, if_true, hpre, List.nil_append, List.cons.injEq, true_and] at this
+        rw [hpre, this]; rfl
+      · simpa [hra] using this
+    rw [hl2, runSeq_cons, runSeq_append, runSeq_cons, commute_past regs app hcomm a pre hind, ← runSeq_append]
+    exact ih (pre ++ post) (fun b hb => hne1 b (List.mem_cons_of_mem _ hb))
+      (fun b hb => hne2 b (by rw [hl2]; rcases List.mem_append.mp hb with h | h
+                              · exact List.mem_append_left _ h
+                              · exact List.mem_append_right _ (List.mem_cons_of_mem _ h))) hproj (app a s)
+
+end Trace
+
+
+/-- an operation of the compile sequence: what it is and the quantum registers it acts on -/
+structure SOp where
+  item : Item
+  regs : List Reg
+  deriving DecidableEq
+
+def itemRegs (r : Reg) : Item → List Reg
+  | .g _ => [r]
+  | .node _ q _ => q
+
+def sopsOfOp (op : Op) : List SOp := (flatOp op).map fun it => ⟨it, op.q⟩
+
+def Circuit.sopsOfNode (c : Circuit) (n : Nat) : List SOp :=
+  match c.node n with
+  | some op => sopsOfOp op
+  | none => []
+
+/-- the compile sequence `sequence(unwrapped=True)` along the node order `seq`: wrappers expanded in application
+    order, identities (no-ops of both compilers) dropped -/
+def Circuit.sops (c : Circuit) (seq : List Nat) : List SOp := seq.flatMap c.sopsOfNode
+
+/-- every operation acts on at least one quantum register -/
+def Circuit.QNonempty (c : Circuit) : Prop := ∀ n op, c.node n = some op → op.q ≠ []
+
+theorem sops_regs {c : Circuit} {n : Nat} {op : Op} (h : c.node n = some op) {x : SOp} (hx : x ∈ c.sopsOfNode n) :
+    x.regs = op.q := by
+  simp only [Circuit.sopsOfNode, h, sopsOfOp, List.mem_map] at hx
+  obtain ⟨it, _, rfl⟩ := hx
+  rfl
+
+theorem filter_flatMap {α β : Type} (p : β → Bool) (f : α → List β) (l : List α) :
+    (l.flatMap f).filter p = l.flatMap fun a => (f a).filter p := by
+  induction l with
+  | nil => rfl
+  | cons a l ih => simp [List.flatMap_cons, List.filter_append, ih]
+
+theorem flatMap_congr' {α β : Type} {f g : α → List β} {l : List α} (h : ∀ a, a ∈ l → f a = g a) :
+    l.flatMap f = l.flatMap g := by
+  induction l with
+  | nil => rfl
+  | cons a l ih =>
+    rw [List.flatMap_cons, List.flatMap_cons, h a List.mem_cons_self, ih (fun b hb => h b (List.mem_cons_of_mem _ hb))]
+
+theorem flatMap_filter_eq {α β : Type} (q : α → Bool) (f : α → List β) (l : List α)
+    (h : ∀ a, a ∈ l → q a = false → f a = []) : l.flatMap f = (l.filter q).flatMap f := by
+  induction l with
+  | nil => rfl
+  | cons a l ih =>
+    rw [List.flatMap_cons, ih (fun b hb => h b (List.mem_cons_of_mem _ hb))]
+    cases hq : q a with
+    | true => rw [List.filter_cons_of_pos (by simpa using hq), List.flatMap_cons]
+    | false => rw [List.filter_cons_of_neg (by simp [hq]), h a List.mem_cons_self hq]; rfl
+
+/-- the operations of the compile sequence on register `r` are the flattened wire `r` -/
+theorem proj_sops (c : Circuit) (hwf : c.WF) (har : c.Arity1) (seq : List Nat) (hlin : c.isLinearExtension seq = true)
+    (r : Reg) (hr : r ∈ c.qregs) :
+    projReg SOp.regs r (c.sops seq) = (c.flatWire r).map fun it => ⟨it, itemRegs r it⟩ := by
+  have hrty := qregs_ty c r hr
+  simp only [Circuit.isLinearExtension, Bool.and_eq_true, List.all_eq_true, decide_eq_true_eq] at hlin
+  obtain ⟨⟨⟨_, hsome⟩, _⟩, hwires⟩ := hlin
+  have hrw := hwires r ((mem_regs_iff c r).mpr ((mem_qregs c r).mp hr).1)
+  -- per node: all of its operations when it lies on `r`, none otherwise
+  have hnode : ∀ n, n ∈ seq → (c.sopsOfNode n).filter (fun a => decide (r ∈ a.regs)) =
+      if n ∈ c.wire r then c.sopsOfNode n else [] := by
+    intro n hn
+    have := hsome n hn
+    cases hop : c.node n with
+    | none => rw [hop] at this; cases this
+    | some op =>
+      have hq := hwf.qwire n op hop r hrty
+      split
+      · rename_i hin
+        rw [List.filter_eq_self]
+        intro x hx
+        rw [sops_regs hop hx]
+        simpa using hq.mp hin
+      · rename_i hin
+        rw [List.filter_eq_nil_iff]
+        intro x hx
+        rw [sops_regs hop hx]
+        simpa using fun h => hin (hq.mpr h)
+  unfold projReg Circuit.sops
+  rw [filter_flatMap]
+  have h1 : seq.flatMap (fun a => (c.sopsOfNode a).filter fun a => decide (r ∈ a.regs)) =
+      seq.flatMap (fun n => if n ∈ c.wire r then c.sopsOfNode n else []) :=
+    flatMap_congr' hnode
+  rw [h1, flatMap_filter_eq (fun n => decide (n ∈ c.wire r)) _ seq (fun n _ hq => by simp only [decide_eq_false_iff_not] at hq; rw [if_neg hq]), hrw]
+  -- now along the wire
+  have h2 : ∀ n, n ∈ c.wire r → (if n ∈ c.wire r then c.sopsOfNode n else []) =
+      (c.F [n]).map fun it => ⟨it, itemRegs r it⟩ := by
+    intro n hn
+    rw [if_pos hn]
+    have := hwf.onNode r n hn
+    cases hop : c.node n with
+    | none => rw [hop] at this; cases this
+    | some op =>
+      rw [F_single_some c n op hop]
+      simp only [Circuit.sopsOfNode, hop, sopsOfOp]
+      apply List.map_congr_left
+      intro it hit
+      have hrq : r ∈ op.q := (hwf.qwire n op hop r hrty).mp hn
+      cases hk : op.kind with
+      | wrapper gs =>
+        obtain ⟨⟨r0, hq0⟩, _⟩ := har n op hop (by rw [hk]; rfl)
+        rw [hq0, List.mem_singleton] at hrq
+        simp only [flatOp, hk, List.mem_map] at hit
+        obtain ⟨g, _, rfl⟩ := hit
+        simp [itemRegs, hq0, hrq]
+      | base g =>
+        obtain ⟨⟨r0, hq0⟩, _⟩ := har n op hop (by rw [hk]; rfl)
+        rw [hq0, List.mem_singleton] at hrq
+        simp only [flatOp, hk, List.mem_map] at hit
+        obtain ⟨g', _, rfl⟩ := hit
+        simp [itemRegs, hq0, hrq]
+      | measZ => simp only [flatOp, hk, List.mem_singleton] at hit; subst hit; rfl
+      | cnot => simp only [flatOp, hk, List.mem_singleton] at hit; subst hit; rfl
+      | cz => simp only [flatOp, hk, List.mem_singleton] at hit; subst hit; rfl
+      | ccnot => simp only [flatOp, hk, List.mem_singleton] at hit; subst hit; rfl
+      | ccz => simp only [flatOp, hk, List.mem_singleton] at hit; subst hit; rfl
+      | mcr => simp only [flatOp, hk, List.mem_singleton] at hit; subst hit; rfl
+  rw [flatMap_congr' h2, flatWire_eq_F]
+  generalize c.wire r = w
+  induction w with
+  | nil => rfl
+  | cons n w ih => rw [List.flatMap_cons, ih, F_cons c n w, List.map_append]
+
+theorem sops_mem {c : Circuit} {seq : List Nat} {x : SOp} (h : x ∈ c.sops seq) :
+    ∃ n op, c.node n = some op ∧ x.regs = op.q := by
+  simp only [Circuit.sops, List.mem_flatMap] at h
+  obtain ⟨n, _, hx⟩ := h
+  cases hop : c.node n with
+  | none => simp [Circuit.sopsOfNode, hop] at hx
+  | some op => exact ⟨n, op, hop, sops_regs hop hx⟩
+
+/-- **the state a circuit compiles to depends only on `flat`**: two well-formed circuits with the same `flat`, each
+    run along any linear extension of its DAG, give the same state — for every semantics `app` of the operations in
+    which operations on disjoint quantum registers commute -/
+theorem denote_eq_of_flat_eq {σ : Type} (app : SOp → σ → σ)
+    (hcomm : ∀ a b : SOp, (∀ r, r ∈ a.regs → r ∉ b.regs) → ∀ s, app a (app b s) = app b (app a s))
+    (c1 c2 : Circuit) (hwf1 : c1.WF) (hwf2 : c2.WF) (har1 : c1.Arity1) (har2 : c2.Arity1)
+    (hq1 : c1.QNonempty) (hq2 : c2.QNonempty) (seq1 seq2 : List Nat)
+    (hl1 : c1.isLinearExtension seq1 = true) (hl2 : c2.isLinearExtension seq2 = true)
+    (hflat : c1.flat = c2.flat) (s : σ) :
+    runSeq app (c1.sops seq1) s = runSeq app (c2.sops seq2) s := by
+  have hcounts : c1.ne = c2.ne ∧ c1.np = c2.np := by
+    simp only [Circuit.flat, Prod.mk.injEq] at hflat
+    exact ⟨hflat.1, hflat.2.1⟩
+  have hqregs : c1.qregs = c2.qregs := by simp [Circuit.qregs, Circuit.regsOf, Circuit.count, hcounts.1, hcounts.2]
+  have hwires : ∀ r, r ∈ c1.qregs → c1.flatWire r = c2.flatWire r := by
+    simp only [Circuit.flat, Prod.mk.injEq] at hflat
+    have := hflat.2.2.2
+    rw [← hqregs] at this
+    exact fun r hr => List.map_inj_left.mp this r hr
+  apply runSeq_eq_of_proj_eq SOp.regs app hcomm
+  · intro x hx
+    obtain ⟨n, op, hop, hr⟩ := sops_mem hx
+    rw [hr]; exact hq1 n op hop
+  · intro x hx
+    obtain ⟨n, op, hop, hr⟩ := sops_mem hx
+    rw [hr]; exact hq2 n op hop
+  · intro r
+    by_cases hr : r ∈ c1.qregs
+    · rw [proj_sops c1 hwf1 har1 seq1 hl1 r hr, proj_sops c2 hwf2 har2 seq2 hl2 r (hqregs ▸ hr), hwires r hr]
+    · have hnone : ∀ (c : Circuit), c.WF → c.qregs = c1.qregs → ∀ seq, projReg SOp.regs r (c.sops seq) = [] := by
+        intro c hwf hqr seq
+        unfold projReg
+        rw [List.filter_eq_nil_iff]
+        intro x hx
+        obtain ⟨n, op, hop, hxr⟩ := sops_mem hx
+        rw [hxr]
+        simp only [decide_eq_true_eq]
+        intro hin
+        have := hwf.qvalid n op hop r hin
+        exact hr (hqr ▸ (mem_qregs c r).mpr this)
+      rw [hnone c1 hwf1 rfl, hnone c2 hwf2 hqregs.symm]
+
 end Graphiq.Wire
